@@ -24,6 +24,8 @@ type SpecEnv struct {
 	visited   *Value
 	exec      *Exec
 	lemma     bool // lemma mode: calls to contract functions apply their contracts
+	outer     *SpecEnv // the environment outside old(...), for now(...)
+	facts     *[]Term // type facts of heap values read while evaluating (outside quantifiers)
 }
 
 type specError struct{ msg string }
@@ -245,7 +247,38 @@ func (e *SpecEnv) sel(x *SSel) Value {
 	if !isStruct(et) {
 		e.fail("selector .%s on non-struct %s", x.Sel, base.Ty)
 	}
-	return e.vc.readField(e.st, base, x.Sel)
+	v := e.vc.readField(e.st, base, x.Sel)
+	e.noteFacts(v)
+	return v
+}
+
+// noteFacts records the type facts of a value read from the heap, when the
+// term does not mention a bound variable.
+func (e *SpecEnv) noteFacts(v Value) {
+	if e.facts == nil || v.Fn != nil || strings.Contains(v.T.S, "!q") {
+		return
+	}
+	*e.facts = append(*e.facts, e.vc.typeFacts(e.st, v.T, v.Ty, 0)...)
+}
+
+// evalWithFacts evaluates a boolean clause and returns the type facts of the
+// heap values it reads (true of every real execution).
+func (e *SpecEnv) evalWithFacts(x SExpr) (Term, []Term) {
+	var facts []Term
+	c := *e
+	c.facts = &facts
+	g := c.evalBool(x)
+	// dedupe
+	seen := map[string]bool{}
+	var out []Term
+	for _, f := range facts {
+		if f.K == 1 || seen[f.S] {
+			continue
+		}
+		seen[f.S] = true
+		out = append(out, f)
+	}
+	return g, out
 }
 
 func (e *SpecEnv) toIdx(v Value) Term {
@@ -261,7 +294,9 @@ func (e *SpecEnv) index(x *SIndex) Value {
 	base := e.eval(x.X)
 	switch u := base.Ty.Underlying().(type) {
 	case *types.Slice:
-		return Value{T: e.vc.sliceElem(e.st, base.T, u.Elem(), e.toIdx(e.eval(x.I))), Ty: u.Elem()}
+		v := Value{T: e.vc.sliceElem(e.st, base.T, u.Elem(), e.toIdx(e.eval(x.I))), Ty: u.Elem()}
+		e.noteFacts(v)
+		return v
 	case *types.Array:
 		return Value{T: tSelect(base.T, e.toIdx(e.eval(x.I))), Ty: u.Elem()}
 	case *types.Map:
@@ -424,7 +459,10 @@ func (e *SpecEnv) call(x *SCall) Value {
 			}
 			c := e.child()
 			c.st = e.old
-			c.old = nil
+			c.old = e.old
+			if e.outer == nil {
+				c.outer = e
+			}
 			if e.oldVars != nil {
 				for k, v := range e.oldVars {
 					c.vars[k] = v
@@ -433,6 +471,23 @@ func (e *SpecEnv) call(x *SCall) Value {
 			if e.oldLookup != nil {
 				c.lookup = e.oldLookup
 			}
+			return c.eval(x.Args[0])
+		case "now":
+			if e.outer == nil {
+				return e.eval(x.Args[0])
+			}
+			c := *e.outer
+			c.vars = map[string]Value{}
+			for k, v := range e.outer.vars {
+				c.vars[k] = v
+			}
+			// bound variables introduced since
+			for k, v := range e.vars {
+				if strings.Contains(v.T.S, "!q") {
+					c.vars[k] = v
+				}
+			}
+			c.facts = e.facts
 			return c.eval(x.Args[0])
 		case "fresh":
 			v := e.eval(x.Args[0])
@@ -443,6 +498,12 @@ func (e *SpecEnv) call(x *SCall) Value {
 				ref = v.T
 			}
 			return Value{T: app("Bool", ">=", ref, e.allocOld), Ty: types.Typ[types.Bool]}
+		case "sameArray":
+			a, b := e.eval(x.Args[0]), e.eval(x.Args[1])
+			if a.T.Sort != "Slice" || b.T.Sort != "Slice" {
+				e.fail("sameArray needs two slices")
+			}
+			return Value{T: tEq(e.vc.slRef(a.T), e.vc.slRef(b.T)), Ty: types.Typ[types.Bool]}
 		case "dom":
 			v := e.eval(x.Args[0])
 			m, ok := v.Ty.Underlying().(*types.Map)
